@@ -626,6 +626,15 @@ fn split_and_glue_attempt(
 
     ds = cut_tile(&ds, &cut_chambers);
 
+    // The cut must separate the glue face from its partner: removing the
+    // face pair then merges two different pieces of the tile. If both lie
+    // in the same piece, gluing would identify a piece with itself and
+    // change the topology, so this cut is unusable.
+    let partner = ds.op(3, glue_chamber).unwrap();
+    if ds.orbit([0, 1, 2], glue_chamber).contains(&partner) {
+        return None;
+    }
+
     let junk = ds.orbit([0, 1, 3], glue_chamber);
     collapse(&DSetOrEmpty::DSet(ds), junk, 3)
 }
